@@ -102,7 +102,7 @@ def lock_method(eng, v, attr, st, node):
 # ------------------------------------------------------------------ file_futures map
 def ff_entry(st, ff, f):
     """the entry stored under f as a Python tuple (writing, bytes, future)"""
-    fut = st.alloc('Future', {'__id': st.field(ff, 'fid')[f], '__task': NONE, '__wflag': st.field(ff, 'writing')[f]}, fresh=False)
+    fut = st.alloc('Future', {'__id': st.field(ff, 'fid')[f], '__task': NONE, '__wflag': st.field(ff, 'writing')[f], '__file': f}, fresh=False)
     return VTuple([st.field(ff, 'writing')[f], st.field(ff, 'bytes')[f], fut])
 
 
